@@ -143,9 +143,39 @@ def gen_value(rng, pname, spec, ptype):
 CCU = {"node clean", "node verify", "group sync", "node sync"}
 
 
+def gen_node_create(rng, spec):
+    """mostly-valid `node create`: exactly one of --create-group / --group, at most one role, sane numbers; --init often"""
+    name = rng.choice(["Nnew", "Nnew", "Nnew", "Nother", spec["nodes"][0]["name"] if spec["nodes"] else "N1"])
+    args = [name]
+    r = rng.random()
+    if r < 0.45:
+        args.append("--create-group")
+    elif r < 0.9 and spec["groups"]:
+        args.append(f"--group={rng.choice(spec['groups'])}")
+    elif r < 0.95:
+        args += ["--create-group", f"--group={spec['groups'][0]}"] if spec["groups"] else []
+    if rng.random() < 0.6:
+        args.append("--init")
+    if rng.random() < 0.5:
+        args.append(rng.choice(["--archive", "--field", "--transport"]))
+    if rng.random() < 0.5:
+        args.append(f"--root=/data/{name}")
+    if rng.random() < 0.4:
+        args.append(f"--host={rng.choice(['h1', 'h2'])}")
+    if rng.random() < 0.3:
+        args.append("--activate")
+    if rng.random() < 0.2:
+        args.append(f"--max-total={rng.choice([5, 0.5, 0, -1])}")
+    if rng.random() < 0.2:
+        args.append(f"--auto-verify={rng.choice([0, 3, -2])}")
+    return args
+
+
 def gen_invocation(rng, cmdname, spec, base: pathlib.Path | None, mode=None):
     cmd = command(cmdname)
     args, extra = [], {}
+    if cmdname == "node create" and rng.random() < 0.8:
+        return gen_node_create(rng, spec), {"mode": None}
     if cmdname in CCU and mode is None:
         mode = rng.choice(["force", "force", "check", "prompt", "prompt", "stdin", "stdin-force"])
     extra["mode"] = mode
